@@ -168,7 +168,7 @@ def judgeGroup (prev new : Dump) (op : List String) (ret : Option (Int × String
   | _, _ => ["group-op-unparsable"]
 
 def judge (st : St) (new : Dump) : String :=
-  let wf := wfCheck new
+  let wf := wfCheck new ++ Hw.Topo.Sym.symCheck new
   let r1 := if wf.isEmpty then [] else ["wf:" ++ ",".intercalate (wf.take 4)]
   let r2 := match st.prev with
     | none => []
